@@ -169,7 +169,7 @@ def _check(c, model, case, kwargs, before, result):
                 break
             if logly.get(n):
                 C = 1.0 if (C is None or not np.isfinite(C)) else float(C)
-                if abs(float(L)) < 1e-10 or not (1e-3 < C < 1e3):
+                if (0 < abs(float(L)) < 1e-10) or C > 1e3 or (0 < C < 1e-3):
                     # the solver wandered to the edge of the domain of a log-variable (level 1e-37 growing by a factor 1e6 per
                     # period): every residual vanishes there in ABSOLUTE terms at the two dates the solver looks at, which its
                     # absolute tolerance cannot tell from convergence. Not a steady state in any useful sense: not decided
@@ -256,9 +256,39 @@ def spec_is_log(spec, name):
     return any(q["name"] == name and q.get("log") for grp in ("tvars", "mvars") for q in spec[grp])
 
 
+def _family_LL(rng):
+    """linear=True models written in the LOGS of log-variables (log-linear models), with leads, lags of order >= 2 and a log
+    measurement variable: exact for the linear steady solver, and the one place where it has to delogarithmize"""
+    n = int(rng.integers(1, 4))
+    names = [f"lx{i}" for i in range(n)]
+    spec = {"tvars": [{"name": nm, "desc": "", "log": True} for nm in names], "mvars": [], "exog": [], "mshocks": [], "families": [], "user_funcs": {},
+            "tshocks": [{"name": f"le{i}", "desc": ""} for i in range(n)], "params": [], "teqs": [], "meqs": [],
+            "flags": {"linear": True, "flat": True}}
+    L = lambda nm, s_: E.call("log", E.var(nm, s_))
+    for i, nm in enumerate(names):
+        rho = float(np.round(rng.uniform(0.1, 0.6), 2))
+        spec["params"].append({"name": f"lr{i}", "desc": "", "value": rho})
+        terms = [E.bin_("*", E.par(f"lr{i}"), L(nm, -int(rng.integers(1, 4))))]
+        if rng.random() < 0.6:
+            terms.append(E.bin_("*", E.num(float(np.round(rng.uniform(0.05, 0.3), 2))), L(names[int(rng.integers(0, n))], int(rng.integers(1, 3)))))
+        if n > 1 and rng.random() < 0.5:
+            terms.append(E.bin_("*", E.num(float(np.round(rng.uniform(-0.2, 0.2), 2)) or 0.1), L(names[(i + 1) % n], -int(rng.integers(0, 3)))))
+        terms.append(E.num(float(np.round(rng.uniform(-0.5, 0.5), 2))))
+        terms.append(E.var(f"le{i}", 0))
+        spec["teqs"].append({"lhs": L(nm, 0), "rhs": E.add_all(terms), "steady": None, "desc": "", "eqsign": "="})
+    if rng.random() < 0.6:
+        spec["mvars"].append({"name": "lob", "desc": "", "log": True})
+        spec["meqs"].append({"lhs": L("lob", 0), "rhs": E.bin_("+", L(names[0], -int(rng.integers(0, 3))), E.num(float(np.round(rng.uniform(-0.3, 0.3), 2)))),
+                             "steady": None, "desc": "", "eqsign": "="})
+    return spec, None, {"family": "LL", "types": ["loglinear"] * n}
+
+
 def make_case(rng):
     r = rng.random()
-    if r < 0.3:
+    if r < 0.08:
+        family = "LL"
+        spec, steady, meta = _family_LL(rng)
+    elif r < 0.3:
         family = "L"
         drift = bool(rng.random() < 0.35)
         spec, meta = F.family_L(rng, unit_root=drift)
